@@ -5,7 +5,7 @@
   documented preconditions; the model functions are those of CB/Model/ModArith.lean, which mirror
   src/uint/{add_mod,sub_mod,neg_mod,mul_mod}.rs, src/modular/div_by_2.rs and the boxed twins.
 -/
-import CB.Lemmas.C07
+import CB.Lemmas.C07Boxed
 namespace CB.P07
 open CB CB.ModArith
 
@@ -233,5 +233,300 @@ theorem neg_mod_special_spec {a : List Nat} {c : Nat} (ha : WF a)
     (by rw [hz, val_uzero]; omega) (by rw [hz]; exact hlta)
   rw [hz, val_uzero, Nat.zero_add] at h
   exact h
+
+/-! ## T07.3 `mul_mod_special` (HAC 14.47 for `p = 2^BITS - c`)
+
+  The product `split_mul` (fixed) / `BoxedUint::mul` (boxed) is used at value level: exactness of
+  multiplication is property C03.  The one-limb path `mul_rem(a, b, 0 - c)` is used at value level:
+  exactness of the limb remainder is property C02. -/
+
+/-
+  FULL STATEMENT (unproved, and FALSE for the code as written — see `mul_mod_special_wrong_at_max`):
+    ∀ a b c, WF a → WF b → a.length = b.length → 1 ≤ c → c < B →
+      val a < B ^ a.length - c → val b < B ^ a.length - c →
+      val (mulModSpecial a b c) = (val a * val b) % (B ^ a.length - c)
+  What the proof forces is exactly `carry + 1 < 2^64` at src/uint/mul_mod.rs:62
+  (`mulModSpecialOverflows a b c = false`); it follows from `c < MAX` or `LIMBS ≤ 2`.
+-/
+
+/-- T07.3a the exact side condition: whenever `carry.0 + 1` does not overflow, the result is the
+    canonical residue — for ALL operands of the width, reduced or not. -/
+theorem mul_mod_special_of_no_overflow {a b : List Nat} {c : Nat} (ha : WF a) (hb : WF b)
+    (hab : a.length = b.length) (hn : 1 ≤ a.length) (hc1 : 1 ≤ c) (hc : c < B)
+    (H_carry : mulModSpecialOverflows a b c = false) :
+    val (mulModSpecial a b c) = (val a * val b) % (B ^ a.length - c) ∧
+    val (mulModSpecial a b c) < B ^ a.length - c ∧
+    WF (mulModSpecial a b c) ∧ (mulModSpecial a b c).length = a.length := by
+  have hpos : 0 < B ^ a.length - c := by
+    have : B ^ 1 ≤ B ^ a.length := Nat.pow_le_pow_right B_pos hn
+    simp only [Nat.pow_one] at this; omega
+  by_cases h1 : a.length = 1
+  · -- LIMBS == 1
+    match a, b, h1, hab with
+    | [x], [y], _, _ =>
+      have hd : mulModSpecial [x] [y] c = [(x * y) % (wsub 0 c)] := rfl
+      have hmod : x * y % (B - c) < B - c := Nat.mod_lt _ (by omega)
+      rw [hd, wsub_zero hc1 hc]
+      simp only [val_cons, val_nil, Nat.mul_zero, Nat.add_zero, List.length_cons, List.length_nil,
+        Nat.zero_add, Nat.pow_one]
+      exact ⟨trivial, hmod, WF_cons.mpr ⟨by omega, WF_nil⟩, trivial⟩
+  · have hn2 : 2 ≤ a.length := by omega
+    have hd : mulModSpecial a b c =
+        specialReduce (toLimbs a.length (val a * val b))
+          (toLimbs a.length (val a * val b / B ^ a.length)) c := by
+      unfold mulModSpecial; rw [if_neg h1]
+    have hov : (macByLimb (toLimbs a.length (val a * val b))
+        (toLimbs a.length (val a * val b / B ^ a.length)) c 0).2 + 1 < B := by
+      have hq := (macByLimb_spec (toLimbs_WF a.length (val a * val b))
+        (toLimbs_WF a.length (val a * val b / B ^ a.length))
+        (by rw [toLimbs_length, toLimbs_length]) hc (show 0 < B by decide)).2.1
+      unfold mulModSpecialOverflows at H_carry
+      rw [if_neg h1] at H_carry
+      simp only [beq_eq_false_iff_ne, ne_eq] at H_carry
+      omega
+    have ⟨r1, r2, r3⟩ := specialReduce_spec (toLimbs_WF a.length (val a * val b))
+      (toLimbs_WF a.length (val a * val b / B ^ a.length))
+      (by rw [toLimbs_length, toLimbs_length]) (by rw [toLimbs_length]; exact hn2) hc1 hc hov
+    rw [toLimbs_length] at r1 r3
+    rw [split_product ha hb hab] at r1
+    rw [hd]
+    exact ⟨r1, by rw [r1]; exact Nat.mod_lt _ hpos, r2, r3⟩
+
+/-- T07.3b `mul_mod_special` returns `a·b mod p` for `p = 2^BITS - c` whenever `c < Limb::MAX`
+    or the width is at most two limbs.  (`_partial`: the region `c = MAX ∧ LIMBS ≥ 3` is excluded;
+    there the code is wrong, see the next theorem.) -/
+theorem mul_mod_special_partial {a b : List Nat} {c : Nat} (ha : WF a) (hb : WF b)
+    (hab : a.length = b.length) (hc1 : 1 ≤ c) (hc : c < B)
+    (hlta : val a < B ^ a.length - c) (hltb : val b < B ^ a.length - c)
+    (H_side : c < WMAX ∨ a.length ≤ 2) :
+    val (mulModSpecial a b c) = (val a * val b) % (B ^ a.length - c) ∧
+    val (mulModSpecial a b c) < B ^ a.length - c ∧
+    WF (mulModSpecial a b c) ∧ (mulModSpecial a b c).length = a.length := by
+  have hn := length_pos_of_lt_special hc1 hlta
+  apply mul_mod_special_of_no_overflow ha hb hab hn hc1 hc
+  unfold mulModSpecialOverflows
+  by_cases h1 : a.length = 1
+  · rw [if_pos h1]
+  · rw [if_neg h1]
+    simp only [beq_eq_false_iff_ne, ne_eq]
+    have hle := macByLimb_carry_le (toLimbs_WF a.length (val a * val b))
+      (toLimbs_WF a.length (val a * val b / B ^ a.length))
+      (by rw [toLimbs_length, toLimbs_length]) hc
+    rcases H_side with hcm | hn2
+    · simp only [B_def, WMAX_def] at *; omega
+    · have := no_overflow_two_limbs ha hb hab (by omega) hc hlta hltb
+      omega
+
+/-- T07.3c NEGATIVE: with `c = Limb::MAX` and three limbs the function as written (release build:
+    `carry + 1` wraps) does NOT return the canonical residue.  Witness `a = b = 2^192 - 2^65 < p`:
+    the model returns `0x3_0000000000000001`, the residue is `0x1_0000000000000002_0000000000000001`;
+    the build with overflow checks panics on the same input (`mulModSpecialOverflows = true`). -/
+theorem mul_mod_special_wrong_at_max :
+    ∃ a b : List Nat, WF a ∧ WF b ∧ a.length = 3 ∧ b.length = 3 ∧
+      val a < B ^ 3 - WMAX ∧ val b < B ^ 3 - WMAX ∧
+      mulModSpecialOverflows a b WMAX = true ∧
+      val (mulModSpecial a b WMAX) = 0x30000000000000001 ∧
+      (val a * val b) % (B ^ 3 - WMAX) = 0x100000000000000020000000000000001 ∧
+      val (mulModSpecial a b WMAX) ≠ (val a * val b) % (B ^ 3 - WMAX) := by
+  refine ⟨[0, WMAX - 1, WMAX], [0, WMAX - 1, WMAX], ?_, ?_, rfl, rfl, ?_, ?_, ?_, ?_, ?_, ?_⟩
+  · unfold WF; decide
+  · unfold WF; decide
+  all_goals decide
+
+/-! ## T07.4 `div_by_2` (halving modulo an odd modulus) -/
+
+/-- arithmetic core: `t = a + (p if a odd)` is even, `t/2 < p` and `2·(t/2) ≡ a (mod p)`. -/
+theorem halve_value {a p : Nat} (hodd : p % 2 = 1) (hlt : a < p) :
+    (a + (if a % 2 = 1 then p else 0)) / 2 < p ∧
+    (2 * ((a + (if a % 2 = 1 then p else 0)) / 2)) % p = a := by
+  by_cases h : a % 2 = 1
+  · simp only [h, if_true]
+    refine ⟨by omega, ?_⟩
+    have : 2 * ((a + p) / 2) = a + p := by omega
+    rw [this, Nat.add_mod_right, Nat.mod_eq_of_lt hlt]
+  · simp only [h, if_false, Nat.add_zero]
+    refine ⟨by omega, ?_⟩
+    have : 2 * (a / 2) = a := by omega
+    rw [this, Nat.mod_eq_of_lt hlt]
+
+/-- T07.4a `div_by_2(a, p)` for odd `p` and `a < p`: the result `r` satisfies `r < p` and
+    `2r ≡ a (mod p)`. -/
+theorem div_by_2_spec {a m : List Nat} (ha : WF a) (hm : WF m) (hl : a.length = m.length)
+    (hodd : val m % 2 = 1) (hlt : val a < val m) :
+    val (divBy2 a m) < val m ∧ (2 * val (divBy2 a m)) % val m = val a ∧
+    WF (divBy2 a m) ∧ (divBy2 a m).length = a.length := by
+  have hne : a ≠ [] := by
+    intro h; subst h
+    cases m with
+    | nil => simp at hlt
+    | cons _ _ => simp at hl
+  have e := uadc_spec a m 0 hl
+  have hc := uadc_carry_le_one ha hm (Nat.le_of_lt Nat.zero_lt_one)
+  have hcB : (uadc a m 0).2 < B := Nat.lt_of_le_of_lt hc (by decide)
+  have hul := uadc_length a m 0 hl
+  have ⟨hv1, hv2⟩ := halve_value hodd hlt
+  have hd : divBy2 a m = setBit (shr1 (uselect a (uadc a m 0).1 (isOdd a))) (64 * a.length - 1)
+      (fromWordNonzero (selectWord 0 (uadc a m 0).2 (isOdd a))) := rfl
+  rw [hd, isOdd_spec ha, selectWord_spec _ (show 0 < B by decide) hcB,
+    uselect_spec _ ha (uadc_WF a m 0) hul.symm]
+  by_cases h : val a % 2 = 1
+  · simp only [h, decide_true, if_true] at hv1 hv2 ⊢
+    have hne' : (uadc a m 0).1 ≠ [] := by
+      intro h0; rw [h0] at hul; cases a with
+      | nil => exact hne rfl
+      | cons _ _ => simp at hul
+    have hbit : fromWordNonzero (uadc a m 0).2 = mask (decide ((uadc a m 0).2 = 1)) := by
+      rw [fromWordNonzero_spec hcB]; congr 1
+      rcases (show (uadc a m 0).2 = 0 ∨ (uadc a m 0).2 = 1 by omega) with h0 | h1
+      · simp [h0]
+      · simp [h1]
+    have ⟨r1, r2, r3⟩ := halve_core (uadc_WF a m 0) hne' hc
+    rw [hul] at r1 r2 r3
+    rw [hbit]
+    have e' : val (uadc a m 0).1 + B ^ a.length * (uadc a m 0).2 = val a + val m := by omega
+    rw [e'] at r1
+    rw [r1]
+    exact ⟨hv1, hv2, r2, r3⟩
+  · simp only [h, decide_false, Bool.false_eq_true, if_false, Nat.add_zero] at hv1 hv2 ⊢
+    have hbit : fromWordNonzero 0 = mask (decide ((0:Nat) = 1)) := by decide
+    have ⟨r1, r2, r3⟩ := halve_core (carry := 0) ha hne (by decide)
+    rw [hbit]
+    rw [Nat.mul_zero, Nat.add_zero] at r1
+    rw [r1]
+    exact ⟨hv1, hv2, r2, r3⟩
+
+/-- T07.4b boxed `div_by_2_boxed_assign`: same statement. -/
+theorem boxed_div_by_2_spec {a m : List Nat} (ha : WF a) (hm : WF m) (hl : a.length = m.length)
+    (hodd : val m % 2 = 1) (hlt : val a < val m) :
+    val (bDivBy2 a m) < val m ∧ (2 * val (bDivBy2 a m)) % val m = val a ∧
+    WF (bDivBy2 a m) ∧ (bDivBy2 a m).length = a.length := by
+  have hne : a ≠ [] := by
+    intro h; subst h
+    cases m with
+    | nil => simp at hlt
+    | cons _ _ => simp at hl
+  have ⟨hv1, hv2⟩ := halve_value hodd hlt
+  have hd : bDivBy2 a m = setBit (shr1 (condAdcLoop a m (isOdd a) 0).1) (64 * a.length - 1)
+      (fromWordLsb ((condAdcLoop a m (isOdd a) 0).2 &&& 1)) := rfl
+  rw [hd, condAdcLoop_eq _ _ hl, isOdd_spec ha, bitandLimb_mask hm]
+  -- the conditionally added operand
+  generalize hq : (if decide (val a % 2 = 1) = true then m else uzero m.length) = q
+  have hqw : WF q := by rw [← hq]; split; exact hm; exact uzero_WF _
+  have hql : a.length = q.length := by rw [← hq]; split; exact hl; rw [uzero_length]; exact hl
+  have hqv : val q = if val a % 2 = 1 then val m else 0 := by
+    rw [← hq]; by_cases h : val a % 2 = 1 <;> simp [h, val_uzero]
+  have e := uadc_spec a q 0 hql
+  have hc := uadc_carry_le_one ha hqw (Nat.le_of_lt Nat.zero_lt_one)
+  have hul := uadc_length a q 0 hql
+  have hne' : (uadc a q 0).1 ≠ [] := by
+    intro h0; rw [h0] at hul; cases a with
+    | nil => exact hne rfl
+    | cons _ _ => simp at hul
+  have hbit : fromWordLsb ((uadc a q 0).2 &&& 1) = mask (decide ((uadc a q 0).2 = 1)) := by
+    rcases (show (uadc a q 0).2 = 0 ∨ (uadc a q 0).2 = 1 by omega) with h0 | h1
+    · rw [h0]; decide
+    · rw [h1]; decide
+  have ⟨r1, r2, r3⟩ := halve_core (uadc_WF a q 0) hne' hc
+  rw [hul] at r1 r2 r3
+  have e' : val (uadc a q 0).1 + B ^ a.length * (uadc a q 0).2
+      = val a + (if val a % 2 = 1 then val m else 0) := by rw [← hqv]; omega
+  rw [e'] at r1
+  rw [hbit, r1]
+  exact ⟨hv1, hv2, r2, r3⟩
+
+/-! ## T07.5 `mul_mod` (Montgomery route) and `mul_mod_vartime` — value level
+
+  The model functions are the specification itself; what remains is the refinement of the called
+  algorithms, which other properties own:
+  * `mul_mod`: `MontyForm::new(a) * MontyForm::new(b)` retrieved equals `a·b mod p` for odd `p`
+    — property C08 (T08.1–T08.3);
+  * `mul_mod_vartime`: `split_mul` exact (C03) and `rem_wide_vartime` exact (C02, carrying its
+    hypotheses `H_recip`, `H_qhat`).
+  The correspondence run compares the real functions with these values on every generated line. -/
+
+theorem mul_mod_value {a b p : List Nat} (hp : WF p) (hap : a.length = p.length) (hpos : 0 < val p) :
+    val (mulMod a b p) = (val a * val b) % val p ∧ val (mulMod a b p) < val p ∧
+    val (mulModVartime a b p) = (val a * val b) % val p := by
+  have hlt : (val a * val b) % val p < B ^ a.length := by
+    have := val_lt hp; rw [← hap] at this
+    exact Nat.lt_trans (Nat.mod_lt _ hpos) this
+  have hv : val (toLimbs a.length ((val a * val b) % val p)) = (val a * val b) % val p := by
+    rw [val_toLimbs, Nat.mod_eq_of_lt hlt]
+  exact ⟨hv, by rw [show val (mulMod a b p) = _ from hv]; exact Nat.mod_lt _ hpos, hv⟩
+
+/-! ## T07.6 BoxedUint duplicates: same limbs as the fixed-width functions (equal precisions) -/
+
+theorem boxed_add_mod_spec {a b p : List Nat} (ha : WF a) (hb : WF b) (hp : WF p)
+    (hab : a.length = b.length) (hap : a.length = p.length)
+    (hlta : val a < val p) (hltb : val b < val p) :
+    val (bAddMod a b p) = (val a + val b) % val p ∧ val (bAddMod a b p) < val p ∧
+    WF (bAddMod a b p) ∧ (bAddMod a b p).length = a.length := by
+  rw [bAddMod_eq ha hb hp hab hap]; exact add_mod_spec ha hb hp hab hap hlta hltb
+
+theorem boxed_double_mod_spec {a p : List Nat} (ha : WF a) (hp : WF p)
+    (hap : a.length = p.length) (hlta : val a < val p) :
+    val (bDoubleMod a p) = (2 * val a) % val p ∧ val (bDoubleMod a p) < val p ∧
+    WF (bDoubleMod a p) ∧ (bDoubleMod a p).length = a.length := by
+  rw [bDoubleMod_eq ha hp hap]; exact double_mod_spec ha hp hap hlta
+
+theorem boxed_sub_mod_spec {a b p : List Nat} (ha : WF a) (hb : WF b) (hp : WF p)
+    (hab : a.length = b.length) (hap : a.length = p.length)
+    (hlta : val a < val p) (hltb : val b < val p) :
+    val (bSubMod a b p) = (val a + val p - val b) % val p ∧ val (bSubMod a b p) < val p ∧
+    WF (bSubMod a b p) ∧ (bSubMod a b p).length = a.length := by
+  rw [bSubMod_eq ha hb hab hap]; exact sub_mod_spec ha hb hp hab hap hlta hltb
+
+theorem boxed_neg_mod_spec {a p : List Nat} (ha : WF a) (hp : WF p)
+    (hap : a.length = p.length) (hlta : val a < val p) :
+    val (bNegMod a p) = (val p - val a) % val p ∧ val (bNegMod a p) < val p ∧
+    (val a = 0 → val (bNegMod a p) = 0) ∧
+    WF (bNegMod a p) ∧ (bNegMod a p).length = a.length := by
+  rw [bNegMod_eq ha hp hap]; exact neg_mod_spec ha hp hap hlta
+
+theorem boxed_sub_mod_special_spec {a b : List Nat} {c : Nat} (ha : WF a) (hb : WF b)
+    (hab : a.length = b.length) (hc1 : 1 ≤ c) (hc : c < B)
+    (hlta : val a < B ^ a.length - c) (hltb : val b < B ^ a.length - c) :
+    val (bSubModSpecial a b c) = (val a + (B ^ a.length - c) - val b) % (B ^ a.length - c) ∧
+    val (bSubModSpecial a b c) < B ^ a.length - c ∧
+    WF (bSubModSpecial a b c) ∧ (bSubModSpecial a b c).length = a.length := by
+  rw [bSubModSpecial_eq c hab (length_pos_of_lt_special hc1 hlta)]
+  exact sub_mod_special_spec ha hb hab hc1 hc hlta hltb
+
+theorem boxed_neg_mod_special_spec {a : List Nat} {c : Nat} (ha : WF a)
+    (hc1 : 1 ≤ c) (hc : c < B) (hlta : val a < B ^ a.length - c) :
+    val (bNegModSpecial a c) = ((B ^ a.length - c) - val a) % (B ^ a.length - c) ∧
+    val (bNegModSpecial a c) < B ^ a.length - c ∧
+    WF (bNegModSpecial a c) ∧ (bNegModSpecial a c).length = a.length := by
+  rw [bNegModSpecial_eq a c (length_pos_of_lt_special hc1 hlta)]
+  exact neg_mod_special_spec ha hc1 hc hlta
+
+/-- boxed `mul_mod_special`: same partial theorem, same excluded region. -/
+theorem boxed_mul_mod_special_partial {a b : List Nat} {c : Nat} (ha : WF a) (hb : WF b)
+    (hab : a.length = b.length) (hc1 : 1 ≤ c) (hc : c < B)
+    (hlta : val a < B ^ a.length - c) (hltb : val b < B ^ a.length - c)
+    (H_side : c < WMAX ∨ a.length ≤ 2) :
+    val (bMulModSpecial a b c) = (val a * val b) % (B ^ a.length - c) ∧
+    val (bMulModSpecial a b c) < B ^ a.length - c ∧
+    WF (bMulModSpecial a b c) ∧ (bMulModSpecial a b c).length = a.length := by
+  rw [bMulModSpecial_eq c hab hc (length_pos_of_lt_special hc1 hlta)]
+  exact mul_mod_special_partial ha hb hab hc1 hc hlta hltb H_side
+
+/-- boxed twin of the negative theorem: identical wrong residue at `c = MAX`, three limbs. -/
+theorem boxed_mul_mod_special_wrong_at_max :
+    val (bMulModSpecial [0, WMAX - 1, WMAX] [0, WMAX - 1, WMAX] WMAX) = 0x30000000000000001 ∧
+    (val [0, WMAX - 1, WMAX] * val [0, WMAX - 1, WMAX]) % (B ^ 3 - WMAX)
+      = 0x100000000000000020000000000000001 := by
+  constructor <;> decide
+
+/-! ## non-vacuity: the hypotheses are met by concrete non-trivial operands -/
+
+example : (addMod [WMAX, WMAX - 1] [WMAX, WMAX - 1] [0, WMAX]) = [WMAX - 1, WMAX - 1] := by decide
+example : val [WMAX, WMAX - 1] < val [0, WMAX] := by decide
+example : val [WMAX, WMAX - 1] + val [WMAX, WMAX - 1] ≥ B ^ 2 := by decide   -- the sum overflows 2^BITS
+example : negMod [0, 0] [5, 7] = [0, 0] := by decide
+example : val (mulModSpecial [5, 6, 7] [8, 9, 10] 3) = (val [5, 6, 7] * val [8, 9, 10]) % (B ^ 3 - 3) := by
+  decide
+example : divBy2 [5, 0] [7, 0] = [6, 0] := by decide
+example : val (subModSpecial [1, 0] [2, 0] 5) = B ^ 2 - 5 - 1 := by decide
 
 end CB.P07
